@@ -244,7 +244,14 @@ class GenericContextRegistry(
 
         # Finally we add them to the active context.
         self._active_ctx.insert_contexts(*contexts)
-        self._switch_context_cache_and_units()
+        try:
+            self._switch_context_cache_and_units()
+        except Exception:
+            # A failed activation must change nothing: take the contexts off the
+            # stack again and restore the cache and unit table of the previous stack.
+            self._active_ctx.remove_contexts(len(contexts))
+            self._switch_context_cache_and_units()
+            raise
 
     def disable_contexts(self, n: int | None = None) -> None:
         """Disable the last n enabled contexts.
